@@ -31,6 +31,7 @@ def scan_reads(prog, allowed_random_ctor=('Core.Model.__init__',)):
     for fi in prog.all_functions():
         checked += 1
         locals_ = {a.arg for a in fi.node.args.args + fi.node.args.kwonlyargs}
+        parents = {id(ch): par for par in ast.walk(fi.node) for ch in ast.iter_child_nodes(par)}
         for n in ast.walk(fi.node):
             if isinstance(n, (ast.Set, ast.SetComp)):
                 viol.append(f'{fi.key}: set display / comprehension (hash order) at line {n.lineno}')
@@ -57,6 +58,12 @@ def scan_reads(prog, allowed_random_ctor=('Core.Model.__init__',)):
                     for (r, a), why in AMBIENT_CALLS.items():
                         if root == r and r != 'random' and (a is None or (chain and chain[0] == a)):
                             viol.append(f'{fi.key}: {r}.{".".join(chain)} - {why} (line {n.lineno})')
+            if isinstance(n, ast.Name) and isinstance(n.ctx, ast.Load) and n.id == 'random' and 'random' not in locals_:
+                par = parents.get(id(n))
+                if not (isinstance(par, ast.Attribute) and par.value is n):
+                    # the module object itself is handed around (`rng = ... else random`): its functions are the global
+                    # generator
+                    viol.append(f'{fi.key}: the `random` module is used as a generator object (line {n.lineno})')
             if isinstance(n, ast.Call) and isinstance(n.func, ast.Name) and n.func.id == 'sorted':
                 for kw in n.keywords:
                     if kw.arg == 'key' and isinstance(kw.value, ast.Name) and kw.value.id in ('id', 'hash'):
@@ -202,7 +209,127 @@ def scan_defaults(prog, table, cid):
     return dict(name='scan:defaults', checked=max(checked, 1), violations=viol)
 
 
+def _load_pinned():
+    import json
+    import os
+    root = os.path.dirname(os.path.dirname(os.path.abspath(__file__)))
+    return json.load(open(os.path.join(root, 'contracts', 'interface.json')))
+
+
+def _current_interface(prog):
+    import importlib.util
+    import os
+    root = os.path.dirname(os.path.dirname(os.path.abspath(__file__)))
+    spec = importlib.util.spec_from_file_location('verif_pin_interface', os.path.join(root, 'tools', 'pin_interface.py'))
+    mod = importlib.util.module_from_spec(spec)
+    spec.loader.exec_module(mod)
+    return mod.build(prog.repo)
+
+
+def _aliases_of(prog, keys):
+    """Deprecated public aliases of the plan's functions: functions decorated @deprecated whose body calls a plan
+    function of the same class / module."""
+    out = {}
+    names = {}
+    for k in keys:
+        parts = k.split('.')
+        names.setdefault((parts[0], parts[1] if len(parts) == 3 else None), {})[parts[-1].split('@')[0]] = k
+    for fi in prog.all_functions():
+        if not fi.deprecated:
+            continue
+        scope = (fi.module, fi.cls.name if fi.cls else None)
+        cands = dict(names.get(scope, {}))
+        if fi.cls is not None:
+            for c in prog.mro(fi.cls.name):
+                cands.update(names.get((prog.classes[c].module, c), {}) if c in prog.classes else {})
+        for n in ast.walk(fi.node):
+            if isinstance(n, ast.Call):
+                nm = n.func.attr if isinstance(n.func, ast.Attribute) else (n.func.id if isinstance(n.func, ast.Name) else None)
+                if nm in cands:
+                    out[fi.key] = cands[nm]
+    return out
+
+
+def scan_interface(prog, reg, cid, props_table):
+    """The declared interface the contracts were written against (contracts/interface.json, pinned from the source by
+    tools/pin_interface.py) still holds for the functions of this property's plan and for their deprecated aliases:
+      signature: the pinned parameters are a prefix of the current ones - same names, same order, same kinds, same
+                 default expressions (new trailing parameters with defaults are fine): positional callers bind the same;
+      decorators: unchanged set;
+      imports: every name a plan module imports still comes from the same origin and is not re-bound at module level;
+      aliases: a deprecated alias is a plain forwarding call of the function it stands for, arguments in order,
+               on the same receiver."""
+    pinned = _load_pinned()
+    cur = _current_interface(prog)
+    checked, viol = 0, []
+    keys = sorted({k.split('#')[0] for k in list(props_table[cid]['functions']) + list(props_table[cid].get('deps', []))})
+    aliases = _aliases_of(prog, keys)
+    for key in keys + sorted(aliases):
+        pk = key.replace('@get', '').replace('@set', '@set')
+        if pk not in pinned['functions']:
+            continue
+        checked += 1
+        if pk not in cur['functions']:
+            viol.append(f'{key}: the function is gone')
+            continue
+        was, now = pinned['functions'][pk], cur['functions'][pk]
+        if now['params'][:len(was['params'])] != was['params'] or any(p[2] is None and p[1] in ('pos', 'kwonly')
+                                                                      for p in now['params'][len(was['params']):]):
+            viol.append(f'{key}: signature changed from ({", ".join(_fmt(p) for p in was["params"])}) to '
+                        f'({", ".join(_fmt(p) for p in now["params"])}) - callers written against the documented order '
+                        f'bind their arguments differently')
+        if sorted(now['decorators']) != sorted(was['decorators']):
+            viol.append(f'{key}: decorators changed from {was["decorators"]} to {now["decorators"]}')
+    for m in sorted({k.split('.')[0] for k in keys}):
+        for name, origin in pinned['imports'].get(m, {}).items():
+            checked += 1
+            if cur['imports'].get(m, {}).get(name) != origin:
+                viol.append(f'{m}.py: `{name}` was imported from {origin}, now '
+                            f'{cur["imports"].get(m, {}).get(name, "not imported (defined locally?)")}')
+            if name in cur['module_assigned'].get(m, []) or f'{m}.{name}' in cur['functions']:
+                viol.append(f'{m}.py: the imported name `{name}` ({origin}) is re-bound at module level')
+    for akey, target in sorted(aliases.items()):
+        checked += 1
+        fi = prog.func(akey)
+        body = [st for st in fi.node.body if not (isinstance(st, ast.Expr) and isinstance(st.value, ast.Constant))]
+        ok = False
+        if len(body) == 1 and isinstance(body[0], (ast.Return, ast.Expr)) and isinstance(body[0].value, ast.Call):
+            call = body[0].value
+            pnames = [a.arg for a in fi.node.args.args]
+            recv_ok = True
+            if fi.cls is not None:
+                recv_ok = isinstance(call.func, ast.Attribute) and isinstance(call.func.value, ast.Name) \
+                    and call.func.value.id == pnames[0]
+                pnames = pnames[1:]
+            tparams = [p[0] for p in cur['functions'].get(target.replace('@get', ''), {}).get('params', [])]
+            if fi.cls is not None:
+                tparams = tparams[1:]
+            args = [a.id if isinstance(a, ast.Name) else (f'*{a.value.id}' if isinstance(a, ast.Starred) and isinstance(a.value, ast.Name) else None)
+                    for a in call.args]
+            kws = {k.arg: (k.value.id if isinstance(k.value, ast.Name) else None) for k in call.keywords}
+            bound = dict(zip(tparams, args))
+            bound.update(kws)
+            want = [n for n in pnames]
+            if fi.node.args.vararg is not None:
+                want.append('*' + fi.node.args.vararg.arg)
+            ok = recv_ok and None not in args and None not in kws.values() \
+                and [bound.get(t) for t in tparams[:len(want)]] == [w for w in want][:len(tparams)] \
+                and len(args) + len(kws) == len(want) and all(bound.get(t) == t or bound.get(t, '').startswith('*')
+                                                              for t in tparams[:len(want)])
+        if not ok:
+            viol.append(f'{akey}: the deprecated alias is no longer a plain forwarding call of {target} (same receiver, '
+                        f'same arguments in the same order)')
+    return dict(name='scan:interface', checked=max(checked, 1), violations=viol)
+
+
+def _fmt(p):
+    return ('*' if p[1] == 'var' else '**' if p[1] == 'kwvar' else '') + p[0] + (f'={p[2]}' if p[2] is not None else '')
+
+
 def run(spec, prog, reg, cid):
+    if spec['kind'] == 'interface':
+        from contracts.props import PROPS
+        return scan_interface(prog, reg, cid, PROPS)
     if spec['kind'] == 'structure':
         from contracts.props import PROPS
         return scan_structure(prog, reg, cid, PROPS)
